@@ -221,7 +221,7 @@ def mutants(mb):
     mb.add_text("maxitems-strict", M, "        return len(data) <= self.max_items", "        return len(data) < self.max_items", "C01.R4", "MaxItemsConstraint")
     mb.add_text("minlen-swapped", M, "        return len(data) >= self.min_len", "        return len(data) <= self.min_len", "C01.R4", "MinLengthConstraint")
     mb.add_text("pattern-fullmatch", M, "        return self.pattern.match(data) is not None", "        return self.pattern.fullmatch(data) is not None", "C01.R4", "PatternConstraint")
-    mb.add_text("multiple-inverted", M, "        return not (data % self.mult_of)", "        return bool(data % self.mult_of)", "C01.R4", "MultipleOfConstraint")
+    mb.add_text("multiple-inverted", M, "            return not (data % self.mult_of)", "            return bool(data % self.mult_of)", "C01.R4", "MultipleOfConstraint")
     mb.add_text("constraint-class-renamed", M, "class MaxPropertiesConstraint(Constraint):", "class MaxPropsConstraint(Constraint):", "C01.R3", "maxProperties")
     mb.add_text("errors-attr-renamed", "apischema/settings.py", "        min_items: ConstraintError = ", "        minimum_items: ConstraintError = ", "C01.R3", "minItems")
     mb.add_text("row-alias-typo", "apischema/constraints.py", 'constraint("maxLength", str, min_)', 'constraint("maxLen", str, min_)', "C01.R3", "maxLen")
